@@ -428,6 +428,38 @@ Check hm_of_permutes :
 Print Assumptions hm_of_permutes.
 
 (* ---------------------------------------------------------------------------------------------
+   the parallel front end (ModelPar.v)
+   --------------------------------------------------------------------------------------------- *)
+From ZV.C01 Require Import ModelPar ProofsPar.
+(* ParallelHuffmanDecoder<P>::decode(ParallelHuffmanEncoder<P>::encode(d), |d|) = d for every stream count n >= 1 (the code has
+   2, 4, 8), every length, and every history of train / encode calls on the encoder object: the decoder's tree is
+   from_data of the text in force (last training text, or the first payload of an untrained encoder) *)
+Theorem par_roundtrip :
+  forall heap_of n ops, heap_any heap_of -> (1 <= n)%nat -> Forall pop_ok ops ->
+  forall d b txt, In (d, Some b, txt) (p_run heap_of n ops p_new None) ->
+  exists t ht, txt = Some t /\ from_data heap_of t = Some ht /\
+               pd_decode (pd_set_tree n ht) b (length d) = Some d.
+Proof. exact par_roundtrip_proof. Qed.
+Check par_roundtrip :
+  forall heap_of n ops, heap_any heap_of -> (1 <= n)%nat -> Forall pop_ok ops ->
+  forall d b txt, In (d, Some b, txt) (p_run heap_of n ops p_new None) ->
+  exists t ht, txt = Some t /\ from_data heap_of t = Some ht /\
+               pd_decode (pd_set_tree n ht) b (length d) = Some d.
+Print Assumptions par_roundtrip.
+
+(* the lanes do not exist: every answer of the parallel encoder is the answer of one HuffmanEncoder on the text in force *)
+Theorem par_is_single_lane :
+  forall heap_of n ops, heap_any heap_of -> (1 <= n)%nat -> Forall pop_ok ops ->
+  forall d out txt, In (d, out, txt) (p_run heap_of n ops p_new None) ->
+  exists t ht, txt = Some t /\ from_data heap_of t = Some ht /\ out = huff_encode ht d.
+Proof. exact par_is_single_lane_proof. Qed.
+Check par_is_single_lane :
+  forall heap_of n ops, heap_any heap_of -> (1 <= n)%nat -> Forall pop_ok ops ->
+  forall d out txt, In (d, out, txt) (p_run heap_of n ops p_new None) ->
+  exists t ht, txt = Some t /\ from_data heap_of t = Some ht /\ out = huff_encode ht d.
+Print Assumptions par_is_single_lane.
+
+(* ---------------------------------------------------------------------------------------------
    rANS / FSE / LZ half.  The import below comes after the Huffman theorems on purpose: the two halves
    define a few names twice (e.g. dec_loop) and the later import shadows the earlier one.
    --------------------------------------------------------------------------------------------- *)
